@@ -243,9 +243,7 @@ def r3b(fx):
 @rule('C06', 'R4', 4, 'masks are evaluated before format and version information are written (those areas still light); the mask announced is the one applied')
 def r4(fx):
     from . import p02
-    for o in p02.r7(fx):
-        if o.key.startswith('_encode v'):
-            yield o
+    yield from p02.encode_stage_obligations(fx, version_info_after_mask=True)
 
 
 @rule('C06', 'R5', 10, 'apply_mask flips exactly the encoding region = complement of all function patterns')
